@@ -812,6 +812,14 @@ func (b *Builder) Finish() error {
 
 	b.finishedShards = map[string]string{}
 
+	if b.buildError != nil {
+		// Not every artifact was renamed into place. Keep the old shards: the
+		// old shard of a name whose rename failed is still in toDelete, and
+		// removing it (or tombstoning the repository in its compound shard)
+		// would leave the repository unindexed until the next successful run.
+		return b.buildError
+	}
+
 	for p := range toDelete {
 		// Don't delete compound shards, set tombstones instead.
 		if b.opts.ShardMerging && strings.HasPrefix(filepath.Base(p), "compound-") {
